@@ -2,17 +2,15 @@ package main
 
 import (
 	"fmt"
-	"math"
 
 	"github.com/golang/geo/s2"
+	"github.com/golang/geo/s2/s2intersect"
 )
 
 func main() {
-	pt := func(a float64) s2.Point { return s2.Point{Vector: s2.PointFromCoords(math.Cos(a), math.Sin(a), 0).Vector} }
-	a0, a1, b0, b1 := pt(0), pt(0.2), pt(0.1), pt(0.3)
-	fmt.Println("crossing:", s2.CrossingSign(a0, a1, b0, b1))
-	x := s2.Intersection(a0, a1, b0, b1)
-	y := s2.Intersection(b0, b1, a0, a1)
-	z := s2.Intersection(a1, a0, b1, b0)
-	fmt.Println(x, y, z, x == y && y == z)
+	P := s2.CellIDFromFace(0)
+	k := P.Children()
+	for _, in := range s2intersect.Find([]s2.CellUnion{{P}, {P}, {k[0], k[1]}, {k[2], k[3]}}) {
+		fmt.Println(in.Indices, in.Intersection, len(in.Intersection))
+	}
 }
